@@ -481,6 +481,31 @@ def c17_big_faults(seed, n=100000, budget_ms=None):
     return out
 
 
+def c17_retry_faults(seed, thin=True):
+    """builds whose first attempt ends in MaxShardTooBig (seeds found by search, MAX_SHARD_RETRY): the retry pass
+    must really re-read both sources -- a clean build maps every key, a fault / a duplicate on the retry pass is
+    reported, functions and filters, online and on disk"""
+    r = random.Random(seed)
+    out = []
+    n = 200000
+    for s in MAX_SHARD_RETRY[n][:1 if thin else 3]:
+        for combo in [("shards", 2, "func", "bfv", "usize"), ("shards", 2, "filter", "box", "u8")]:
+            func = combo[2] == "func"
+            cases = [dict(), dict(faults=[read_fault("key", 1, 1234)]), dict(subst=[[n - 1, 5]], check_dups=True),
+                     dict(faults=[read_fault("key", 1, n - 1)], offline=True)]
+            if func:
+                cases.append(dict(faults=[read_fault("val", 1, n // 2)]))
+            if thin:
+                cases = cases[:3] + cases[4:]
+            for c in cases:
+                b = build(n, combo, seed=s, **c)
+                q = [{"op": "len"}]
+                if not c:
+                    q = func_queries(r, n, False)[:3] if func else filter_queries(r, n, 8, max_probe_bits=8)[:4]
+                out.append(episode([b] + q, kt="usize", kf=RANGE0, src="retry-faults", budget_ms=120000))
+    return out
+
+
 # ------------------------------------------------------------------ C12: out-of-domain queries
 def c12_episodes(seed):
     r = random.Random(seed)
@@ -620,6 +645,25 @@ def retry_recipes(seed, kind, sizes=(200000,), per_size=2):
     return out
 
 
+def threshold_hints(seed, thin=True):
+    """expected_num_keys on the other side of a sharding threshold than the actual number of keys: the signature
+    store must be split with the shard bits of the keys actually read, as the graphs and the queries are"""
+    r = random.Random(seed)
+    out = []
+    pairs = [(99990, 100000), (199000, 200000), (150000, 400000), (100000, 99990), (100000, 800001), (200000, 10 ** 7)]
+    if thin:
+        pairs = pairs[:2] + pairs[3:4]
+    for j, (n, h) in enumerate(pairs):
+        for lg in (("shards",) if thin else ("shards", "fullsigs")):
+            offline = (j % 2 == 1)
+            una = not offline
+            v, wide = (vals(1, 0, 30), False) if una else value_recipe(r, n, 64, "bfv")
+            b = build(n, (lg, 2, "func", "bfv", "usize"), v=v, hint=h, offline=offline)
+            out.append(episode([b] + func_queries(r, n, wide, unaligned=una), kt="usize", kf=keyfn(r, "usize"),
+                               src="threshold-hints", budget_ms=120000))
+    return out
+
+
 def sharded_logics(seed, kind, sizes=(100000, 120000), budget_ms=120000):
     """every sharding logic on key sets that are actually sharded (two shards at 100000..199999 keys), online and
     on disk with fewer buckets than shards (too-small hint / few buckets: the split branch of the on-disk store),
@@ -636,14 +680,20 @@ def sharded_logics(seed, kind, sizes=(100000, 120000), budget_ms=120000):
                 eps = "0.1" if lg == "mwhc" else None
                 if kind == "func":
                     combo = (lg, sg, "func", "bfv", "usize")
-                    v, wide = value_recipe(r, n, 64, "bfv")
+                    # the first configuration stores identity values and is also read through the unaligned getters
+                    # (a separate query path: VFunc::get_by_sig_unaligned), over every shard
+                    una = not offline and threads == 1
+                    v, wide = (vals(1, 0, 30), False) if una else value_recipe(r, n, 64, "bfv")
                     b = build(n, combo, v=v, hint=hint, offline=offline, log2_buckets=lb, threads=threads, eps=eps)
-                    out.append(episode([b] + func_queries(r, n, wide), kt=kt, kf=keyfn(r, kt), src="sharded", budget_ms=budget_ms))
-                else:
-                    combo = (lg, sg, "filter", "box", "u8")
-                    b = build(n, combo, hint=hint, offline=offline, log2_buckets=lb, threads=threads, eps=eps)
-                    out.append(episode([b] + filter_queries(r, n, 8, max_probe_bits=8), kt=kt, kf=keyfn(r, kt), src="sharded",
+                    out.append(episode([b] + func_queries(r, n, wide, unaligned=una), kt=kt, kf=keyfn(r, kt), src="sharded",
                                        budget_ms=budget_ms))
+                else:
+                    una = lg == "shards" and not offline and threads == 1
+                    combo = (lg, sg, "filter", "bfv", "u64") if una else (lg, sg, "filter", "box", "u8")
+                    b = build(n, combo, hint=hint, offline=offline, log2_buckets=lb, threads=threads, eps=eps,
+                              bits=8 if una else None)
+                    out.append(episode([b] + filter_queries(r, n, 8, max_probe_bits=8, unaligned=una), kt=kt, kf=keyfn(r, kt),
+                                       src="sharded", budget_ms=budget_ms))
     return out
 
 
